@@ -158,7 +158,7 @@ func TestC05_P_FileRange(t *testing.T) {
 }
 
 const c05HamtRule = "case = (sharded directory from the C02 name generator incl. hash-collision groups, fanout, a member or non-member name); lookup on a freshly reified (cold cache) root; " +
-	"oracle = independent murmur3 hash-path model: the ordered list of requested blocks must equal the child shards on the name's hash path; non-trivial = hash path with >= 2 child shards or a non-member probe below the root; distinct by (fanout, depth, path length, member?)"
+	"oracle = independent murmur3 hash-path model: the set of requested blocks must equal the child shards on the name's hash path; non-trivial = hash path with >= 2 child shards or a non-member probe below the root; distinct by (fanout, depth, path length, member?)"
 
 func TestC05_P_HamtLookup(t *testing.T) {
 	ev := newEvid(t, c05HamtRule)
@@ -212,8 +212,12 @@ func TestC05_P_HamtLookup(t *testing.T) {
 			}
 			wantPath := tree.HashPath(name)
 			log := st.ReadLog()
-			if fmt.Sprint(log) != fmt.Sprint(wantPath) {
-				t.Fatalf("C05 hamt fanout=%d n=%d lookup %q: requested %v, hash path is %v", fanout, len(names), name, shortCids(log), shortCids(wantPath))
+			// set comparison (request order and repetition are C20's subject, not C05's)
+			if c, ok := subsetOf(log, cidSet(wantPath)); !ok {
+				t.Fatalf("C05 hamt fanout=%d n=%d lookup %q: requested %s which is not on the name's hash path (requested %v, hash path %v)", fanout, len(names), name, c, shortCids(log), shortCids(wantPath))
+			}
+			if c, ok := subsetOf(wantPath, cidSet(log)); !ok {
+				t.Fatalf("C05 hamt fanout=%d n=%d lookup %q: shard %s on the hash path was never requested (requested %v)", fanout, len(names), name, c, shortCids(log))
 			}
 			if w, ok := member[name]; ok {
 				if c, e := linkOf(v); lerr != nil || e != nil || c != w {
@@ -232,7 +236,7 @@ func TestC05_P_HamtLookup(t *testing.T) {
 }
 
 const c05PathRule = "case = (tree of files / plain dirs / sharded dirs, a root-to-node path rendered with drawn slashes, or the same path with a bogus trailing segment); resolved with UnixFSPathSelector (lazy match); " +
-	"oracle = model path blocks (root, per directory the shards on the segment's hash path, each entry's root block): the requested blocks must equal exactly that ordered list; non-trivial = path crosses a sharded directory with a child shard on the hash path; distinct by (segment count, kinds along the path, bogus?)"
+	"oracle = model path blocks (root, per directory the shards on the segment's hash path, each entry's root block): the set of requested blocks must equal exactly that set; non-trivial = path crosses a sharded directory with a child shard on the hash path; distinct by (segment count, kinds along the path, bogus?)"
 
 func TestC05_P_PathResolution(t *testing.T) {
 	ev := newEvid(t, c05PathRule)
@@ -277,8 +281,11 @@ func TestC05_P_PathResolution(t *testing.T) {
 			t.Fatalf("C05 path %q: traversal error %v", path, err)
 		}
 		log := st.ReadLog()
-		if fmt.Sprint(log) != fmt.Sprint(want) {
-			t.Fatalf("C05 path %q (bogus=%v): requested %v, path blocks are %v", path, bogus, shortCids(log), shortCids(want))
+		if c, ok := subsetOf(log, cidSet(want)); !ok {
+			t.Fatalf("C05 path %q (bogus=%v): requested %s which is not on the path (requested %v, path blocks %v)", path, bogus, c, shortCids(log), shortCids(want))
+		}
+		if c, ok := subsetOf(want, cidSet(log)); !ok {
+			t.Fatalf("C05 path %q (bogus=%v): path block %s was never requested (requested %v)", path, bogus, c, shortCids(log))
 		}
 		if (bogus && matches != 0) || (!bogus && matches != 1) {
 			t.Fatalf("C05 path %q (bogus=%v): %d matches", path, bogus, matches)
